@@ -68,7 +68,7 @@ def p_stmt(s, ind):
     k = s[0]
     if k in ("yield", "yieldfrom", "decl", "assign", "inc", "eff", "effv"):
         return [t + p_simple(s)]
-    if k == "raw":
+    if k in ("raw", "rawstmts"):
         return [t + l for l in s[1].split("\n")]
     if k == "break":
         return [t + "break"]
@@ -173,7 +173,7 @@ def contains_yield(stmts):
                     found[0] = True
         if s[0] == "switch" and s[1] is not None and s[1][0] in ("yield", "yieldfrom"):
             found[0] = True
-        if s[0] == "raw" and ("Yield(" in s[1] or "YieldFrom(" in s[1]):
+        if s[0] in ("raw", "rawstmts") and ("Yield(" in s[1] or "YieldFrom(" in s[1]):
             found[0] = True
 
     walk(stmts, f)
@@ -243,6 +243,12 @@ def tags_of(body):
                 rec(s[4], cur + [["for", s, False]])
             elif k == "range":
                 rec(s[5], cur + [["for", s, False]])
+            elif k == "rawstmts":
+                # a switch / type switch printed as text; its clause bodies are the child lists
+                if stmt_yields(s):
+                    tags.add("yielding-switch")
+                for child in s[2]:
+                    rec(child, cur + [["switch", s, False]])
             if stmt_yields(s):
                 pre = True
 
@@ -280,7 +286,7 @@ def twin_body(body):
             out.append(("raw", "rt.YieldFromCo(yield_, T%s)" % e))
         elif k == "return":
             out.append(("raw", "return"))
-        elif k == "raw":
+        elif k in ("raw", "rawstmts"):
             if "Yield" in s[1] or "Iter[" in s[1] or "MoveNext" in s[1]:
                 return None
             out.append(s)
@@ -342,6 +348,8 @@ class Program:
     def __init__(self, pid, body, helpers="", named_result=False, tags=None, family="main", ret_type="int", driver=None, note=""):
         self.pid = pid
         self.body = body
+        if "H2(" in repr(body) and "func H2(" not in (helpers or ""):
+            helpers = C01_HELPERS_TEXT + ("\n" + helpers if helpers else "")
         self.helpers = helpers
         self.named_result = named_result
         self.tags = set(tags or ()) | tags_of(body)
@@ -721,9 +729,143 @@ class Sampler:
         return None
 
 
-def sampled(rng, count, max_nodes=12, weights=None):
+YIELD_FORMS = ["{v}", "-{v}", "+{v}", "^{v}", "({v})", "{v} + 1", "{v} << 1", "int(int32({v}))", "[]int{{{v}, 1}}[0]",
+               "func() int {{ return {v} }}()", "*(&{v})", "rt.Eff(955, {v})", "-rt.Eff(956, {v})", "len([]int{{{v}}}) + {v}"]
+
+
+class RichSampler(Sampler):
+    """the base grammar plus: var declarations, mixed ':=', multiple assignment, switches with
+    define / assign initialisers, type switches (with init), fallthrough from yield-free clauses,
+    immediately invoked function literals with native control flow, closures defined and called
+    later, range statements over literals in every variable form, delegation, and yielded
+    expressions in many syntactic forms"""
+
+    EXTRA = {"VAR": 2, "MDEF": 2, "MASSIGN": 1, "SWI": 2, "TSW": 2, "FT": 1, "IIFE": 1, "CLO": 2, "RNG": 3, "YF": 2, "YX": 4}
+
+    def __init__(self, rng, weights=None, max_depth=4):
+        super().__init__(rng, weights, max_depth)
+        self.n = 0
+        self.entry = []  # len(scope) at entry of the enclosing bodies: scope[entry[-1]:] are this block's own variables
+
+    def body(self, budget, ctr, loopvars, in_loop, in_switch, depth, scope):
+        self.entry.append(len(scope))
+        try:
+            return super().body(budget, ctr, loopvars, in_loop, in_switch, depth, scope)
+        finally:
+            self.entry.pop()
+
+    def fresh(self, p):
+        self.n += 1
+        return "%s%d" % (p, self.n)
+
+    def stmt(self, budget, ctr, loopvars, in_loop, in_switch, depth, scope):
+        rng = self.rng
+        total = sum(self.w.values()) + sum(self.EXTRA.values())
+        r = rng.random() * total
+        if r >= sum(self.EXTRA.values()):
+            return super().stmt(budget, ctr, loopvars, in_loop, in_switch, depth, scope)
+        kinds = []
+        for k, w in self.EXTRA.items():
+            if k in ("SWI", "TSW", "FT", "RNG") and (depth >= self.max_depth or budget[0] < 2):
+                continue
+            if k == "MASSIGN" and not scope:
+                continue
+            if k == "MDEF" and not scope[self.entry[-1]:]:
+                continue  # a mixed ':=' re-assigns only variables declared in the same block
+            kinds += [k] * w
+        if not kinds:
+            return super().stmt(budget, ctr, loopvars, in_loop, in_switch, depth, scope)
+        k = rng.choice(kinds)
+        budget[0] -= 1
+        vals = scope + ["a", "b"] + loopvars
+        sub = lambda il, isw, lv=loopvars, sc=None: self.body(budget, ctr, lv, il, isw, depth + 1, list(scope) if sc is None else sc) or [("eff", ctr.eff())]
+        if k == "VAR":
+            v = self.fresh("v")
+            scope.append(v)
+            form = rng.choice(["var %s int = %s", "var %s = %s", "var %s int\n%s = %s"])
+            e = "%s + %d" % (rng.choice(vals), rng.randint(1, 9))
+            txt = form % ((v, e) if form.count("%s") == 2 else (v, v, e))
+            return [("raw", txt), ("assign", "_", v)]
+        if k == "MDEF":
+            old = rng.choice(scope[self.entry[-1]:])
+            v = self.fresh("m")
+            scope.append(v)
+            return [("raw", "%s, %s := %s + %d, %s + %d" % (old, v, rng.choice(vals), rng.randint(1, 9), rng.choice(vals), rng.randint(1, 9))), ("assign", "_", v)]
+        if k == "MASSIGN":
+            x = rng.choice(scope)
+            y = rng.choice(scope)
+            if x == y:
+                return [("raw", "%s, _ = %s + 1, %s" % (x, x, rng.choice(vals)))]
+            return [("raw", "%s, %s = %s, %s + %s" % (x, y, y, x, rng.choice(vals)))]
+        if k == "SWI":
+            v = self.fresh("z")
+            e = "(%s + %d) & 3" % (rng.choice(vals), rng.randint(0, 5))
+            if scope and rng.random() < 0.4:
+                tgt = rng.choice(scope)
+                init, tag = ("assign", tgt, e), tgt
+                inner = list(scope)
+            else:
+                init, tag = ("decl", v, e), v
+                inner = list(scope) + [v]
+            cases = [(str(i), sub(in_loop, True, sc=list(inner))) for i in range(rng.randint(1, 2))]
+            default = sub(in_loop, True, sc=list(inner)) if rng.random() < 0.5 else None
+            return [("switch", init, tag, cases, default)]
+        if k == "TSW":
+            tv = self.fresh("tv")
+            bind = self.fresh("tb")
+            g = ctr.guard()
+            pre = ("raw", "var %s any = %s\nif %s {\n\t%s = \"s\"\n}" % (tv, rng.choice(vals), g, tv))
+            b1 = strip_jumps(sub(in_loop, True, sc=list(scope) + [bind]))
+            b2 = strip_jumps(sub(in_loop, True)) if rng.random() < 0.5 else None
+            head_init = ""
+            if rng.random() < 0.4:
+                iv = self.fresh("ti")
+                head_init = "%s := %s + 1; " % (iv, rng.choice(vals))
+                b1 = [("effv", 4, iv)] + b1
+            # printed raw because of the optional init; the clause bodies are statement lists
+            lines = ["switch %s%s := %s.(type) {" % (head_init, bind, tv), "case int:"]
+            lines += p_stmts([("effv", 4, bind)] + b1, 1)
+            lines += ["case string:"] + p_stmts([("effv", 4, "len(%s)" % bind)], 1)
+            if b2 is not None:
+                lines += ["default:"] + p_stmts(b2, 1)
+            lines += ["}"]
+            return [pre, ("rawstmts", "\n".join(lines), [[("effv", 4, bind)] + b1] + ([b2] if b2 is not None else []))]
+        if k == "FT":
+            # a yield-free clause that falls through into the next clause
+            tag = "%s & 1" % rng.choice(vals)
+            b = strip_jumps(sub(in_loop, True))
+            lines = ["switch %s {" % tag, "case 0:", "\trt.Emit(rt.EFF, %d)" % ctr.eff(), "\tfallthrough", "case 1:"] + p_stmts(b, 1) + ["}"]
+            return [("rawstmts", "\n".join(lines), [b])]
+        if k == "IIFE":
+            acc = self.fresh("q")
+            scope.append(acc)
+            return [("effv", 7, acc)][:0] + [("raw", "%s := func() int {\n\tt := 0\n\tdefer func() { t++ }()\n\tfor i := 0; i < 3; i++ {\n\t\tswitch i & 1 {\n\t\tcase 0:\n\t\t\tcontinue\n\t\t}\n\t\tif i > %s {\n\t\t\tbreak\n\t\t}\n\t\tt += i + %s\n\t}\n\treturn t\n}()" % (acc, rng.choice(vals), rng.choice(vals))), ("effv", 7, acc)]
+        if k == "CLO":
+            f = self.fresh("cf")
+            if scope and rng.random() < 0.5:
+                tgt = rng.choice(scope)
+                return [("raw", "%s := func(d int) { %s += d }" % (f, tgt)), ("yield", "%s + %d" % (tgt, rng.randint(1, 9))), ("raw", "%s(%s)" % (f, rng.choice(vals))), ("yield", "%s + %d" % (tgt, rng.randint(10, 19)))]
+            return [("raw", "%s := func() int { return %s + %d }" % (f, rng.choice(vals), rng.randint(1, 9))), ("yield", "%s()" % f)]
+        if k == "RNG":
+            kv = self.fresh("rk")
+            vv = self.fresh("rv")
+            coll = rng.choice(["[]int{%s, %s}" % (rng.choice(vals), rng.choice(vals)), "[]int{%s, 7, 9}[1:]" % rng.choice(vals), "\"ab\"", "map[int]int{1: %s}" % rng.choice(vals)])
+            form = rng.choice([(kv, vv, ":="), (kv, None, ":="), ("_", vv, ":="), (None, None, ":=")])
+            names = [x for x in form[:2] if x and x != "_"]
+            inner = list(scope) + ([kv] if kv in names else []) + ([vv] if (vv in names and "ab" not in coll) else [])
+            uses = [("effv", 6, "int(%s)" % x) for x in names]
+            return [("range", form[0], form[1], form[2], coll, uses + sub(True, False, loopvars, sc=inner))]
+        if k == "YF":
+            return [("yieldfrom", "H2(%s)" % rng.choice(vals))]
+        if k == "YX":
+            ctr.y += 1
+            return [("yield", rng.choice(YIELD_FORMS).format(v=rng.choice(vals)) + (" + %d" % (ctr.y * 10)))]
+        return None
+
+
+def sampled(rng, count, max_nodes=12, weights=None, rich=True):
     progs = []
-    s = Sampler(rng, weights)
+    s = RichSampler(rng, weights) if rich else Sampler(rng, weights)
     tries = 0
     while len(progs) < count and tries < count * 20:
         tries += 1
